@@ -6,7 +6,7 @@ from common import *
 ALL_ACTIONS = ["Encode", "Encrypt", "EncryptZero", "Expand", "Decrypt", "Negate", "Add", "Sub", "Multiply", "Square",
                "Relin", "AddPlain", "SubPlain", "MulPlain", "ToNtt", "FromNtt", "PlainToNtt", "ModSwitchNext",
                "ModSwitchTo", "RescaleNext", "RescaleTo", "ModSwitchPlainNext", "ModSwitchPlainTo", "Galois",
-               "Rotate", "Conj", "Corrupt"]
+               "Rotate", "Conj", "Corrupt", "EncryptOther", "KeySwitch"]
 
 
 def tla_seq(xs):
@@ -70,7 +70,7 @@ def default_galois_elts(n):
 
 
 def write_instance(wd, name, info, *, actions, ct_slots, pt_slots, max_steps, max_size, msgs, scales=(30,),
-                   steps=None, elts=None, keyset="default", view_values=False, tag_msgs=False, invariants=True, emit=True, extra_defs=""):
+                   steps=None, elts=None, keyset="default", view_values=False, tag_msgs=False, tag_alias=False, invariants=True, emit=True, extra_defs=""):
     c = level_constants(info)
     n, t = info["n"], max(info["t"], 2)
     scheme = info["scheme"]
@@ -119,6 +119,7 @@ def write_instance(wd, name, info, *, actions, ct_slots, pt_slots, max_steps, ma
     cfg.append("  SeedWords = 9")
     cfg.append("  PrimeOffset = %d" % c["PrimeOffset"])
     cfg.append("  TagMsgs = %s" % ("TRUE" if tag_msgs else "FALSE"))
+    cfg.append("  TagAlias = %s" % ("TRUE" if tag_alias else "FALSE"))
     for nm in ["QLow", "QHigh", "PBits", "QInvT", "Msgs", "HasKeyFor", "CtSlots", "PtSlots", "Scales", "Steps", "Elts"]:
         cfg.append("  %s <- MC_%s" % (nm, nm))
     cfg.append("VIEW MCView")
@@ -195,7 +196,43 @@ class Graph:
 def replay_behaviours(pset, msgs, behs, wd, tag="beh", deadline=20.0, nproc=None):
     cfgp = os.path.join(wd, tag + "_cfg.json")
     json.dump({"pset": pset, "msgs": msgs}, open(cfgp, "w"))
+    import common
+    if common.SELFTEST:
+        behs = selftest_corrupt_expectation(behs, tag)
     return run_workers_parallel(["he-replay", cfgp], behs, wd, tag, nproc=nproc, deadline=deadline)
+
+
+def selftest_corrupt_expectation(behs, tag):
+    """selftest: changes ONE expected field of the last step of one behaviour (seeded choice); the replay must disagree"""
+    import common, copy
+    rng = random.Random("%s/%s" % (common.SELFTEST, tag))
+    cand = [i for i, b in enumerate(behs) if b["steps"] and b["steps"][-1]["v"] == "ok" and b["steps"][-1]["out"]["kind"] == "ct"]
+    if not cand:
+        return behs
+    i = rng.choice(cand)
+    b = copy.deepcopy(behs[i])
+    out = b["steps"][-1]["out"]
+    kinds = ["lvl", "ntt", "size"]
+    if out.get("cmp") and out.get("val"):
+        kinds.append("val")
+    k = rng.choice(kinds)
+    old = copy.deepcopy(out.get(k))
+    if k == "lvl":
+        out["lvl"] = out["lvl"] - 1 if out["lvl"] > 0 else 1
+    elif k == "ntt":
+        out["ntt"] = not out["ntt"]
+    elif k == "size":
+        out["size"] = out["size"] + 1
+    else:
+        v = out["val"]
+        j = rng.randrange(len(v))
+        if isinstance(v[j], list):
+            v[j][0] += 1 << 20          # CKKS slots: far outside any error bound
+        else:
+            v[j] = v[j] + 1
+    common.SELFTEST_LOG.append({"replay": tag, "behaviour": i, "op": b["steps"][-1]["act"]["op"], "field": k, "old": old})
+    log("SELFTEST-CORRUPTED " + json.dumps(common.SELFTEST_LOG[-1]))
+    return behs[:i] + [b] + behs[i + 1:]
 
 
 def signature(beh, res):
